@@ -190,6 +190,22 @@ def U1_claim_before(ctx):
            what='Some(c) ⇔ c < limit ∧ CAS(c → c+1) succeeded on the value just loaded; None only when the cursor is at/after the limit (no index at or beyond the limit is handed out, none is skipped)')
 
 
+    # the production implementation of the cursor abstraction forwards to the std atomic unchanged
+    fw = [b for b in ctx.facts.production() if b['kind'] == 'assoc' and 'RewindableAtomic' in b['fn'] and b['fn'].startswith('<std::sync::atomic::') and ' as ' in b['fn']]
+    badf = []
+    for b in fw:
+        g = ctx.fn(b)
+        m = b['fn'].split('::')[-1]
+        for p in feasible(g.paths()):
+            cs = [e for e in p.events if e.kind == 'call' and 'std::sync::atomic' in e.d['callee'] and e.d['callee'].endswith('::' + m)]
+            ret = [e for e in p.events if e.kind == 'ret'][0].d['value']
+            if len(cs) != 1 or [strip(a) for a in cs[0].d['args']] != [('arg', i + 1) for i in range(g.b['argc'])] or strip(ret) != strip(cs[0].d['result']):
+                badf.append(core.short_fn(b['fn']))
+    if fw:
+        ctx.ob('U1', fw[0]['fn'], 'cursor-abstraction-forwards-unchanged', len(fw) >= 2 and not badf, '; '.join(sorted(set(badf))), site=ctx.fn(fw[0]).loc(fw[0]['lo']),
+               what='claim_before is written against a small atomic trait; its implementation for AtomicUsize passes (current, new, success, failure) through in that order and returns the result')
+
+
 def U2_rewind(ctx):
     f = ctx.method('SchedulerContext', 'rewind_validation_to')
     ps = feasible(f.paths())
